@@ -278,7 +278,7 @@ def nontrivial(case):
 
 
 def edited_strategy(tier):
-    return st.fixed_dictionaries({"root": st.sampled_from(["module", "dfg", "custom"]), "mut": store.reuse_mutations(25 if tier == "quick" else 45), "cfg": CFG, "cfg2": CFG})
+    return st.fixed_dictionaries({"root": st.sampled_from(["module", "dfg", "custom"]), "mut": st.one_of(store.reuse_mutations(25 if tier == "quick" else 45), store.burst_mutations(), store.burst_mutations()), "cfg": CFG, "cfg2": CFG})
 
 
 def edited_nontrivial(case):
